@@ -5,7 +5,6 @@ use std::collections::HashSet;
 
 use bc_components::{Digest, DigestProvider, SymmetricKey};
 use bc_envelope::prelude::*;
-use dcbor::prelude::*;
 
 use crate::pos::T;
 use crate::rng::Rng;
